@@ -188,70 +188,116 @@ def _product_like(c):
 
 def r3_product_types(ctx):
     """Product types (tuple[...]): the emitted check and `check` are both interpreted on every tuple of length 2..4
-    over the element tags and compared with: same length, and every element an instance of its position's type."""
+    over tagged values and compared with: same length, and every element an instance of its position's type - where
+    the middle position's type is once a plain class and once a value-dependent type (a bound plus a value test, whose
+    own emitted code tests the value only, as the real ones do).  `CodeGen`, `combine` and `generate_checking_code` are
+    the package's own source, interpreted."""
     import itertools
 
-    from ..metainterp import HostInterp, Raised, Record
+    from ..metainterp import HostFn, HostInterp, Instance, Raised, Record
 
     base, subs = param_types(ctx)
     prods = [c for c in subs if _product_like(c) and "check" in c.methods]
     ctx.require(prods, "no product-like type (codegen built by a loop over the parameters)")
+    repo = ctx.repo
+
+    class V:
+        """a value: its class tag and its payload"""
+
+        def __init__(self, cls, val=None):
+            self.cls, self.val = cls, val
+
+        def __repr__(self):
+            return f"{self.cls}({self.val})" if self.val is not None else self.cls
+
+    class Dep:
+        """a value-dependent element type: instances are the `bound` values whose payload equals `p`"""
+
+        bound, p = "int", 0
+
+        def __repr__(self):
+            return "Literal[0]"
+
     for c in prods:
         cg = c.methods["codegen"]
         ck = c.methods["check"]
         ctx.touch(cg, ck)
-        params = ("T0", "T1", "T2")
-        tags = params + ("X",)
-        values = [v for k in (2, 3, 4) for v in itertools.product(tags, repeat=k) if k < 4 or v[:3] == params]
-        want = {v: len(v) == len(params) and all(a == b for a, b in zip(v, params)) for v in values}
+        cgcls = [k for k in repo.all_classes() if k.name == "CodeGen"]
+        if len(cgcls) != 1:
+            raise AnalysisError("the code-generation carrier class was not found")
+        cgm = repo.raw_methods(cgcls[0])
+        funcs = {n: g.node for n, g in cg.module.funcs.items() if g.parent is None and g.cls is None and not g.node.decorator_list}
+        for label, params, pool in (
+            ("plain classes", ("T0", "T1", "T2"), [V("T0"), V("T1"), V("T2"), V("X")]),
+            ("a value-dependent type in the middle", ("T0", Dep(), "T2"), [V("T0"), V("int", 0), V("float", 0), V("int", 1), V("T2")]),
+        ):
+            def inst(v, t):
+                if t is tuple or t == "tuple":
+                    return isinstance(v, tuple)
+                if not isinstance(v, V):
+                    return False
+                if isinstance(t, Dep):
+                    return v.cls == t.bound and v.val == t.p
+                return v.cls == t
 
-        def CodeGen(template, substitutions=None, **kw):
-            return Record(template=template, substitutions={**(substitutions or {}), **kw})
+            values = [v for k in (2, 3, 4) for v in itertools.product(pool, repeat=k) if k == 3 or all(inst(a, b) for a, b in zip(v, params))]
+            want = {v: len(v) == len(params) and all(inst(a, b) for a, b in zip(v, params)) for v in values}
+            genv = {"isinstance": inst}
+            me = Record(parameters=params, __args__=params, bound="tuple")
+            hi = HostInterp({}, me, {}, globals_env=genv, classes={"CodeGen": cgm}, functions=funcs)
+            hi.host_types = hi.host_types + (V, Dep)
 
-        inst = lambda v, t: isinstance(v, t) if isinstance(t, type) else v == t  # noqa: E731
-        genv = {"CodeGen": CodeGen, "isinstance": inst}
-        me = Record(parameters=params, __args__=params, bound="tuple")
-        problems_cg = None
-        problems_ck = None
-        try:
-            hi = HostInterp({}, me, {}, globals_env=genv, classes={}, functions={})
-            res = hi.call_function(cg.node, [me], {}, {})
-            if not (isinstance(res, Record) and isinstance(getattr(res, "template", None), str)):
-                raise AnalysisError(f"{cg.key}: codegen did not build a CodeGen from a template")
-            subs_ = res.substitutions
+            def dep_codegen(hi=hi):
+                o = Instance("CodeGen", cgm)
+                hi.call_function(cgm["__init__"], [o, "({arg}.val == {p})"], {"p": Dep.p}, {})
+                return o
+
+            for t in params:
+                if isinstance(t, Dep):
+                    t.codegen = HostFn(dep_codegen)
+            problems_cg = None
+            problems_ck = None
             try:
-                text = res.template.format(arg="ARG", **{k: f"SUB_{k}" for k in subs_})
-                expr = ast.parse(text, mode="eval").body
-            except (KeyError, IndexError, SyntaxError, ValueError) as e:
-                problems_cg = f"the emitted template `{res.template}` cannot be instantiated: {e}"
-                expr = None
-            if expr is not None:
-                for v in values:
-                    env = {"ARG": v, **{f"SUB_{k}": val for k, val in subs_.items()}}
-                    try:
-                        got = bool(HostInterp({}, Record(), {}, globals_env={"isinstance": inst}, classes={}, functions={}).ev(expr, env))
-                    except (IndexError, AnalysisError) as e:
-                        got = f"error {e}"
-                    if got != want[v] and problems_cg is None:
-                        problems_cg = f"for the value {v} against tuple[{', '.join(params)}] the emitted check `{text}` gives {got}, isinstance must give {want[v]}"
-        except (AnalysisError, Raised) as e:
-            raise AnalysisError(f"{cg.key}: not interpretable: {e}")
-        ctx.ob(
-            f"{cg.key}:emitted-check",
-            cg.loc(),
-            f"the emitted check accepts exactly the tuples of the right length whose every element is an instance of its position's type ({len(values)} tuples interpreted)",
-            problems_cg is None,
-            (problems_cg or "") + ": the generated tuple check has no length test, skips a position or does not conjoin the element tests",
-        )
-        rv2 = recv_name(ck)
-        for v in values:
-            try:
-                got = bool(HostInterp({}, me, {}, globals_env={"isinstance": inst}, classes={}, functions={}).call_function(ck.node, [me, v], {}, {}))
+                res = hi.call_function(cg.node, [me], {}, {})
+                tpl, subs_ = getattr(res, "template", None), getattr(res, "substitutions", None)
+                if not isinstance(tpl, str) or not isinstance(subs_, dict):
+                    raise AnalysisError(f"{cg.key}: codegen did not build a CodeGen from a template")
+                try:
+                    text = tpl.format(arg="ARG", **{k: f"SUB_{k}" for k in subs_})
+                    expr = ast.parse(text, mode="eval").body
+                except (KeyError, IndexError, SyntaxError, ValueError) as e:
+                    problems_cg = f"the emitted template `{tpl}` cannot be instantiated: {e}"
+                    expr = None
+                if expr is not None:
+                    for v in values:
+                        env = {"ARG": v, **{f"SUB_{k}": val for k, val in subs_.items()}}
+                        try:
+                            hv = HostInterp({}, Record(), {}, globals_env={"isinstance": inst, "tuple": tuple}, classes={}, functions={})
+                            hv.host_types = hv.host_types + (V, Dep)
+                            got = bool(hv.ev(expr, env))
+                        except (IndexError, AnalysisError) as e:
+                            got = f"error {e}"
+                        if got != want[v] and problems_cg is None:
+                            problems_cg = f"for the value {v} against tuple[{', '.join(map(str, params))}] the emitted check `{text}` gives {got}, isinstance must give {want[v]}"
             except (AnalysisError, Raised) as e:
-                raise AnalysisError(f"{ck.key}: not interpretable: {e}")
-            if got != want[v] and problems_ck is None:
-                problems_ck = f"for the value {v} against tuple[{', '.join(params)}] `check` gives {got}, must give {want[v]}"
-        ctx.ob(f"{ck.key}:length-and-elements", ck.loc(), "isinstance on the product type tests the length and every element against its own position's type (interpreted)", problems_ck is None, (problems_ck or "") + ": the product type's check no longer tests both the length and every element position")
+                raise AnalysisError(f"{cg.key}: not interpretable: {e}")
+            ctx.ob(
+                f"{cg.key}:emitted-check:{label}",
+                cg.loc(),
+                f"[{label}] the emitted check accepts exactly the tuples of the right length whose every element is an instance of its position's type ({len(values)} tuples interpreted)",
+                problems_cg is None,
+                (problems_cg or "") + ": the generated tuple check has no length test, skips a position, does not conjoin the element tests, or tests an element's value without its class",
+            )
+            for v in values:
+                try:
+                    hc = HostInterp({}, me, {}, globals_env={"isinstance": inst, "tuple": tuple}, classes={}, functions=funcs)
+                    hc.host_types = hc.host_types + (V, Dep)
+                    got = bool(hc.call_function(ck.node, [me, v], {}, {}))
+                except (AnalysisError, Raised) as e:
+                    raise AnalysisError(f"{ck.key}: not interpretable: {e}")
+                if got != want[v] and problems_ck is None:
+                    problems_ck = f"for the value {v} against tuple[{', '.join(map(str, params))}] `check` gives {got}, must give {want[v]}"
+            ctx.ob(f"{ck.key}:length-and-elements:{label}", ck.loc(), f"[{label}] isinstance on the product type tests the length and every element against its own position's type (interpreted)", problems_ck is None, (problems_ck or "") + ": the product type's check no longer tests both the length and every element position")
 
 
 def r4_connective_is_quantifier(ctx):
@@ -360,6 +406,7 @@ def r7(ctx):
 
 
 RULES = [
+    ("C11.R14", "P1", lambda ctx: r14_combination_is_compositional(ctx), "combining emitted checks keeps every member's substitutions, at any nesting depth (interpreted)"),
     ("C11.R7", "P1", r7, "value-dependence is recognised at any nesting depth"),
     ("C11.R1", "P1", r1_sibling_footprints, "siblings consult the same parameters"),
     ("C11.R2", "P1", r2_template_equals_check, "template = check"),
@@ -368,3 +415,73 @@ RULES = [
     ("C11.R5", "P1", r5, "generic handlers pass all normalised arguments"),
     ("C11.R6", "P1", r6, "table path needs disjoint keys"),
 ]
+
+
+def r14_combination_is_compositional(ctx):
+    """The combiner of emitted checks (`combine`), interpreted together with the carrier class on members that use the
+    same placeholder names, flat and nested two levels deep: the combined check, instantiated, is the master template
+    filled with the instantiated members - no member's substitution is overwritten by another's."""
+    from ..metainterp import HostInterp, Instance, Raised, Record
+
+    repo = ctx.repo
+    cgcls = [k for k in repo.all_classes() if k.name == "CodeGen"]
+    if len(cgcls) != 1:
+        raise AnalysisError("the code-generation carrier class was not found")
+    K = cgcls[0]
+    comb = [f for f in K.module.funcs.values() if f.parent is None and f.cls is None and len(f.params) == 2 and any(isinstance(c, ast.Call) and isinstance(c.func, ast.Attribute) and c.func.attr == "format" and any(isinstance(a, ast.Starred) for a in c.args) for c in ast.walk(f.node))]
+    if len(comb) != 1:
+        raise AnalysisError("the combiner of emitted checks was not found")
+    comb = comb[0]
+    ctx.touch(comb, *K.methods.values())
+    cgm = repo.raw_methods(K)
+    funcs = {n: g.node for n, g in K.module.funcs.items() if g.parent is None and g.cls is None and not g.node.decorator_list}
+    hi = HostInterp({}, Record(), {}, globals_env={}, classes={K.name: cgm}, functions=funcs)
+
+    def leaf(template, **subs):
+        o = Instance(K.name, cgm)
+        hi.call_function(cgm["__init__"], [o, template], subs, {})
+        return o
+
+    def inst(cg):
+        tpl, subs = getattr(cg, "template", None), getattr(cg, "substitutions", None)
+        if not isinstance(tpl, str) or not isinstance(subs, dict):
+            raise AnalysisError(f"{comb.key}: does not return a template with substitutions")
+        try:
+            return tpl.format(arg="ARG", **{k: repr(v) for k, v in subs.items()})
+        except (KeyError, IndexError, ValueError) as e:
+            return f"<cannot be instantiated: {type(e).__name__} {e}>"
+
+    def combine(master, members):
+        return hi.call_function(comb.node, [master, list(members)], {}, {})
+
+    problems = []
+    try:
+        # flat: two members with the same placeholder names
+        a, b = leaf("({arg}.x == {p})", p=1), leaf("({arg}.x == {p})", p=2)
+        flat = combine("({} or {})", [a, b])
+        if inst(flat) != "((ARG.x == 1) or (ARG.x == 2))":
+            problems.append(f"two members using the same placeholder combine to `{inst(flat)}`")
+        # nested: (a & b) | (c & d), every leaf with the same placeholder names
+        i1 = combine("({} and {})", [leaf("({arg}.x == {p})", p=1), leaf("({arg}.y == {p})", p=2)])
+        i2 = combine("({} and {})", [leaf("({arg}.x == {p})", p=3), leaf("({arg}.y == {p})", p=4)])
+        nested = combine("({} or {})", [i1, i2])
+        want = "(((ARG.x == 1) and (ARG.y == 2)) or ((ARG.x == 3) and (ARG.y == 4)))"
+        if inst(nested) != want:
+            problems.append(f"(a & b) | (c & d) combines to `{inst(nested)}` instead of `{want}`")
+        # three levels, and a combination next to a leaf
+        deep = combine("({} and {})", [nested, leaf("({arg}.z == {p})", p=5)])
+        if inst(deep) != f"({want} and (ARG.z == 5))":
+            problems.append(f"a combination next to a plain check combines to `{inst(deep)}`")
+        # one combination used in two places keeps working
+        twice = combine("({} or {})", [i1, i1])
+        if inst(twice) != "(((ARG.x == 1) and (ARG.y == 2)) or ((ARG.x == 1) and (ARG.y == 2)))":
+            problems.append(f"one member used twice combines to `{inst(twice)}`")
+    except Raised as r:
+        problems.append(f"combining raises {r.what}")
+    ctx.ob(
+        f"{comb.key}:compositional",
+        comb.loc(),
+        "combining emitted checks keeps every member's own substitutions: flat, nested two and three levels deep, with members that use the same placeholder names (carrier class and combiner interpreted)",
+        not problems,
+        "; ".join(problems[:2]) + ": in a nested & / | combination one member's check is evaluated with another member's parameters, so dispatch accepts or rejects values isinstance() decides otherwise",
+    )
